@@ -43,7 +43,7 @@ def run_history(ctx, rng, case, est, Q, rate, hname, hf, keys, nsteps, p_pushpop
                 f.add(key, force) if force else f.add(key)
             else:
                 case.op("add_alt", key, force)
-                f.add_alt((hf or _default())(key, refimpl.bloom_sizing_simple(est, rate)[1]), force)
+                f.add_alt((hf or _default())(key, refimpl.bloom_sizing_simple(est, rate)[1] + rng.choice([0, 0, 2, 5])), force)
             calls += 1
             if eff:
                 if counts[-1] == est:
@@ -137,6 +137,10 @@ def wl_history(ctx, rng, case):
     keys = gen.universe(rng, rng.randint(4, 40))
     hname, hf = gen.pick_hash(rng, keys, kind=rng.choice(["library_default", "default_fnv_1a", "default_md5", "default_sha256", "decorated_int_sha512",
                                                           "decorated_bytes_blake2b", "hand_pairs_collide", "hand_mod3"]))
+    if rng.random() < 0.12:
+        from probables.hashes import default_fnv_1a as _d
+
+        hname, hf = "hand_generous_depth", gen.GenerousHash(hf or _d, rng.randint(1, 4))
     p_pushpop = rng.choice([0.0, 0.0, 0.08, 0.14])
     case.desc = {"est": est, "queue": Q, "rate": rate, "hash": hname, "n_keys": len(keys), "p_pushpop": p_pushpop}
     ctx.observe("est_elements", est)
